@@ -57,6 +57,38 @@ def write_arc(path, T, n_atoms):
                 fh.write("%6d  C  %18.10f %18.10f %18.10f %5d\n" % (a + 1, (i + 1) * 1.0, (a + 1) * 1.0, 0.5, 1))
 
 
+def write_fixed_atom_dcd(path, T, n_atoms):
+    """A CHARMM DCD with fixed atoms (frame 0 stores every atom, later frames only the free ones);
+    dcdplugin supports reading them, mdtraj cannot write them.  Atoms 0..n_free-1 are free."""
+    import struct
+    n_free = max(1, n_atoms // 2)
+    free = np.arange(n_free, dtype=np.int32)
+    xyz = np.zeros((T, n_atoms, 3), dtype=np.float32)
+    for i in range(T):
+        for a in range(n_atoms):
+            xyz[i, a] = ((i + 1) * 1.0 if a < n_free else 1.0, (a + 1) * 1.0, 0.5)
+
+    def rec(payload):
+        mark = struct.pack("<i", len(payload))
+        return mark + payload + mark
+
+    ints = [0] * 20
+    ints[0] = T
+    ints[2] = 1
+    ints[8] = n_atoms - n_free
+    ints[19] = 24
+    block = bytearray(b"CORD" + struct.pack("<20i", *ints))
+    block[4 + 36: 4 + 40] = struct.pack("<f", 1.0)
+    out = [rec(bytes(block)), rec(struct.pack("<i", 1) + b"fixed atoms".ljust(80)), rec(struct.pack("<i", n_atoms)),
+           rec((free + 1).astype("<i4").tobytes())]
+    for f in range(T):
+        sel = slice(None) if f == 0 else free
+        for dd in range(3):
+            out.append(rec(xyz[f, sel, dd].astype("<f4").tobytes()))
+    with open(path, "wb") as fh:
+        fh.write(b"".join(out))
+
+
 def make_files(T, n_atoms, formats, d, tag="", cell=True):
     t = make_traj(T, n_atoms, cell)
     if not cell:
@@ -67,6 +99,13 @@ def make_files(T, n_atoms, formats, d, tag="", cell=True):
         if not os.path.exists(p):
             if fmt == "arc":
                 write_arc(p, T, n_atoms)
+            elif fmt == "xyznonl.xyz":
+                # a legal .xyz file whose last line has no final newline
+                t.save(p)
+                data = open(p, "rb").read().rstrip(b"\n")
+                open(p, "wb").write(data)
+            elif fmt == "dcdfix.dcd":
+                write_fixed_atom_dcd(p, T, n_atoms)
             elif fmt == "dcd0.dcd":
                 # a DCD whose header frame count (NSET) was never filled in: the reader derives the number
                 # of frames from the file size (supported by dcdplugin); the cursor contract is the same
@@ -124,7 +163,7 @@ def traj_obs(t):
             "top_atoms": [a.residue.resSeq - 1 for a in t.topology.atoms] if t.topology is not None else None}
 
 
-UNIT = {"dcd0.dcd": 10.0, "h5": 1.0, "xtc": 1.0, "trr": 1.0, "dcd": 10.0, "nc": 10.0, "mdcrd": 10.0, "xyz": 10.0,
+UNIT = {"xyznonl.xyz": 10.0, "dcdfix.dcd": 10.0, "dcd0.dcd": 10.0, "h5": 1.0, "xtc": 1.0, "trr": 1.0, "dcd": 10.0, "nc": 10.0, "mdcrd": 10.0, "xyz": 10.0,
         "lammpstrj": 10.0, "dtr": 10.0, "arc": 10.0, "gro": 1.0, "lh5": 1.0, "netcdf": 10.0}
 
 
